@@ -190,18 +190,19 @@ func restC17(o *Opts) {
 		drv.Send("restreset")
 		names := []string{"alpha", "b.dat", "Gamma_3", "δ", "e e"}[:1+rng.Intn(4)]
 		dims := map[string]int{}
+		live := map[string]map[uint64]bool{} // the harness's own record of live ids (oracle, independent of the model)
 		var trace []map[string]any
 		diverged := false
 		send := func(method, rawPath string, body []byte, why string) {
-			if diverged {
-				return
-			}
 			u, err := url.Parse("http://x" + rawPath)
 			if err != nil {
 				return
 			}
 			desc := describe(method, u.Path, u.RawQuery, body)
-			model := drv.Send(fmt.Sprintf("rest %s %s %s", method, hexW([]byte(u.Path)), desc))
+			model := "(not asked: diverged earlier in this history)"
+			if !diverged {
+				model = drv.Send(fmt.Sprintf("rest %s %s %s", method, hexW([]byte(u.Path)), desc))
+			}
 			r := srv.do(method, rawPath, body)
 			res.Evaluations++
 			res.DistinctCase(fmt.Sprintf("%d/%d", h, len(trace)))
@@ -214,7 +215,7 @@ func restC17(o *Opts) {
 			// payloads the model does not predict (search results of vector queries) are compared by status only
 			mf := strings.SplitN(model, " ", 3)
 			rf := strings.SplitN(real, " ", 3)
-			same := model == real
+			same := model == real || diverged // after the first divergence only the direct oracles below judge
 			if !same && len(mf) == 3 && len(rf) == 3 && mf[1] == rf[1] && mf[2] == "-" && strings.HasPrefix(rf[2], "page") {
 				same = true
 			}
@@ -253,11 +254,35 @@ func restC17(o *Opts) {
 				res.Violate("impl-failure", "C17/malformed-not-400", fmt.Sprintf("%s %s answered %d", method, rawPath, r.Status), trace[len(trace)-1])
 			case strings.HasPrefix(why, "valid-") && (r.Status < 200 || r.Status > 299):
 				res.Violate("impl-failure", "C17/valid-request-not-2xx", fmt.Sprintf("%s %s (%s) answered %d", method, rawPath, why, r.Status), trace[len(trace)-1])
+			case why == "live-record" && (r.Status < 200 || r.Status > 299):
+				res.Violate("impl-failure", "C17/live-record-not-2xx", fmt.Sprintf("%s %s addresses a live record but was answered %d", method, rawPath, r.Status), trace[len(trace)-1])
+			case why == "unknown-record" && r.Status != 404:
+				res.Violate("impl-failure", "C17/unknown-record-not-404", fmt.Sprintf("%s %s addresses a record that does not exist but was answered %d", method, rawPath, r.Status), trace[len(trace)-1])
 			}
+			// /ids lists exactly the ids the harness saw acknowledged
+			if method == "GET" && strings.HasSuffix(u.Path, "/ids") && r.Status == 200 && why == "valid-ids" {
+				var got []uint64
+				json.Unmarshal(r.Body, &got)
+				sort.Slice(got, func(i, j int) bool { return got[i] < got[j] })
+				var want []uint64
+				for id := range live[why2coll(u.Path)] {
+					want = append(want, id)
+				}
+				sort.Slice(want, func(i, j int) bool { return want[i] < want[j] })
+				if joinU(got) != joinU(want) {
+					res.Violate("impl-failure", "C17/ids-wrong", fmt.Sprintf("GET %s lists %s, acknowledged live ids are %s", rawPath, joinU(got), joinU(want)), trace[len(trace)-1])
+				}
+			}
+		}
+		lastStatus := func() int {
+			var st int
+			fmt.Sscanf(fmt.Sprint(trace[len(trace)-1]["impl"]), "status %d", &st)
+			return st
 		}
 		coll := func() string { return names[rng.Intn(len(names))] }
 		esc := func(n string) string { return url.PathEscape(n) }
-		for i := 0; i < nreq && !diverged; i++ {
+		stop := false
+		for i := 0; i < nreq && !stop; i++ {
 			n := coll()
 			base := "/api/v1/collections/" + esc(n)
 			_, exists := dims[n]
@@ -290,6 +315,7 @@ func restC17(o *Opts) {
 			case k < 27:
 				send("DELETE", base, nil, "valid-drop")
 				delete(dims, n)
+				delete(live, n)
 			case k < 55:
 				d := dims[n]
 				cnt := 1 + rng.Intn(3)
@@ -299,18 +325,38 @@ func restC17(o *Opts) {
 					for x := range v {
 						v[x] = rng.Float64()
 					}
-					recs = append(recs, map[string]any{"id": rng.Intn(12), "vector": v, "metadata": map[string]string{"k": fmt.Sprint(rng.Intn(5)), "z<&>": "é\"q"}})
+					recs = append(recs, map[string]any{"id": genID(rng, 12), "vector": v, "metadata": map[string]string{"k": fmt.Sprint(rng.Intn(5)), "z<&>": "é\"q"}})
 				}
 				why := "valid-insert"
 				if !exists {
 					why = "unknown-collection"
 				}
 				send("POST", base+"/records", []byte(jsonS(recs)), why)
+				if exists && lastStatus()/100 == 2 {
+					if live[n] == nil {
+						live[n] = map[uint64]bool{}
+					}
+					for _, rec := range recs {
+						live[n][rec["id"].(uint64)] = true
+					}
+				}
 			case k < 65:
-				id := rng.Intn(14)
-				send("PUT", fmt.Sprintf("%s/records/%d/metadata", base, id), []byte(jsonS(map[string]any{"metadata": map[string]string{"u": fmt.Sprint(i)}})), "update")
+				id := genID(rng, 14)
+				why := "unknown-collection"
+				if exists {
+					why = map[bool]string{true: "live-record", false: "unknown-record"}[live[n][id]]
+				}
+				send("PUT", fmt.Sprintf("%s/records/%d/metadata", base, id), []byte(jsonS(map[string]any{"metadata": map[string]string{"u": fmt.Sprint(i)}})), why)
 			case k < 73:
-				send("DELETE", fmt.Sprintf("%s/records/%d", base, rng.Intn(14)), nil, "delete-record")
+				id := genID(rng, 14)
+				why := "unknown-collection"
+				if exists {
+					why = map[bool]string{true: "live-record", false: "unknown-record"}[live[n][id]]
+				}
+				send("DELETE", fmt.Sprintf("%s/records/%d", base, id), nil, why)
+				if exists && lastStatus()/100 == 2 {
+					delete(live[n], id)
+				}
 			case k < 83:
 				why := "valid-listing"
 				if !exists {
@@ -341,7 +387,7 @@ func restC17(o *Opts) {
 				srv.kill()
 				if !srv.start() {
 					res.Violate("impl-failure", "C17/restart-failed", "the server did not come back on its data folder: "+abbreviate(srv.log.String(), 300), map[string]any{"history": h})
-					diverged = true
+					stop = true
 					break
 				}
 				drv.Send("restrestart")
@@ -367,3 +413,12 @@ func restC17(o *Opts) {
 var _ = hex.EncodeToString
 
 func init() { subcommands["rest-C17"] = restC17 }
+
+// collection name of a /api/v1/collections/<name>/... path (already unescaped)
+func why2coll(path string) string {
+	parts := strings.Split(path, "/")
+	if len(parts) > 4 {
+		return parts[4]
+	}
+	return ""
+}
